@@ -1407,8 +1407,15 @@ func (ls *LState) NewThread() (*LState, context.CancelFunc) {
 	thread.Env = ls.Env
 	var f context.CancelFunc = nil
 	if ls.ctx != nil {
+		// the new thread lives as long as the context the host attached, not as long as the thread that
+		// happens to create it: the context of a thread made here is cancelled as soon as that thread is dead
+		parent := ls.ctx
+		if ls.ctxParent != nil {
+			parent = ls.ctxParent
+		}
 		thread.mainLoop = mainLoopWithContext
-		thread.ctx, f = context.WithCancel(ls.ctx)
+		thread.ctxParent = parent
+		thread.ctx, f = context.WithCancel(parent)
 		thread.ctxCancelFn = f
 	}
 	return thread, f
@@ -2054,6 +2061,7 @@ func (ls *LState) SetMx(mx int) {
 func (ls *LState) SetContext(ctx context.Context) {
 	ls.mainLoop = mainLoopWithContext
 	ls.ctx = ctx
+	ls.ctxParent = nil
 }
 
 // Context returns the LState's context. To change the context, use WithContext.
@@ -2066,6 +2074,7 @@ func (ls *LState) RemoveContext() context.Context {
 	oldctx := ls.ctx
 	ls.mainLoop = mainLoop
 	ls.ctx = nil
+	ls.ctxParent = nil
 	return oldctx
 }
 
